@@ -151,6 +151,12 @@ func dischargeOne(ob *Obligation, cfg SolverCfg) {
 		return
 	}
 	quickSat := st == "sat"
+	if ob.Cover {
+		// vacuity cover: only a quick 'unsat' matters; anything else means the path is (possibly) feasible
+		ob.Status, ob.Solver, ob.Time = st, "z3-new", total
+		solveCache.Store(key, &cached{ob.Status, ob.Solver, "", total})
+		return
+	}
 	// stage 2: race all three
 	type res struct {
 		name, st, out string
